@@ -222,33 +222,73 @@ def classify (t : TxnReq) : Shape :=
 /-- the live key-value of `key` (what `backend.get(key, 0)` answers) -/
 def curKv (c : Cfg) (s : BState) (key : Bytes) : Option KV := (latestKv c s.store key).1
 
-def shimCreate (c : Cfg) (s : BState) (p : PutReq) : Except EErr TxnResp × BState :=
-  if p.ignoreLease || p.ignoreValue || p.prevKv then (.error .field, s)
-  else
-    match doCreate c s p.key p.val [] with
-    | (.ok rev, s') => (.ok { ok := true, hdr := rev, resps := [.put rev], wrote := true }, s')
-    | (.condFailed hdr _, s') => (.ok { ok := false, hdr := hdr, resps := [.put hdr], wrote := false }, s')
-    | (.notFound hdr, s') => (.ok { ok := false, hdr := hdr, resps := [.put hdr], wrote := false }, s')
-    | (.error e, s') => (.error (.backend e), s')
+/-! #### the backend's answer, and the shaping as a function of it
 
-def shimDelete (c : Cfg) (s : BState) (rev : Int) (key : Bytes) : Except EErr TxnResp × BState :=
-  match doDelete c s key (toU64 rev) [] with
-  | (.ok r, s') =>
-    (.ok { ok := true, hdr := r, resps := [.range r (curKv c s key).toList 0 false], wrote := true }, s')
-  | (.condFailed hdr kv, s') =>
-    (.ok { ok := false, hdr := hdr, resps := [.range hdr kv.toList 0 false], wrote := false }, s')
-  | (.notFound hdr, s') =>
-    (.ok { ok := false, hdr := hdr, resps := [.range hdr [] 0 false], wrote := false }, s')
-  | (.error e, s') => (.error (.backend e), s')
+`RPCServer.Txn` = recognise the shape, make ONE backend write call (or none), shape its answer.
+The two halves are separated here: `backendCall` (which call, with which arguments), `runCall` (the call
+on the sequential backend model) and `shapeTxn` (backendshim.go `Create / Delete / Update` after their
+backend call, plus the unguarded-delete fix-up of kv.go) — `shapeTxn` is a function of the backend's
+ANSWER alone, so it also says how an answer that only a race produces is presented to the client. -/
 
-def shimUpdate (c : Cfg) (s : BState) (rev : Int) (key val : Bytes) : Except EErr TxnResp × BState :=
-  match doUpdate c s key val (toU64 rev) [] with
-  | (.ok r, s') => (.ok { ok := true, hdr := r, resps := [.put r], wrote := true }, s')
-  | (.condFailed hdr kv, s') =>
-    (.ok { ok := false, hdr := hdr, resps := [.range hdr kv.toList 0 false], wrote := false }, s')
-  | (.notFound hdr, s') =>
-    (.ok { ok := false, hdr := hdr, resps := [.range hdr [] 0 false], wrote := false }, s')
-  | (.error e, s') => (.error (.backend e), s')
+/-- What `backend.Create / Update / Delete` hand back (pkg/backend/txn.go): the proto response
+(`Succeeded`, `Header.Revision`, `Kv` — a `CreateResponse` has no `Kv`) or an error. Every answer the
+backend can give, sequentially or under a race:
+create `resp true rev none` | `resp false rev none` (exists);
+update `resp true rev none` | `resp false (max rev mod) (some current)` | `resp false rev none` (gone);
+delete `resp true rev (some old)` | `resp false rev none` (missing) | `resp false (max rev mod) (some current)`
+(stale expectation or LOST RACE) | `resp false rev (some old)` (vanished between the read and the commit);
+all: `error`. -/
+inductive BAns where
+  | resp (succeeded : Bool) (hdr : Nat) (kv : Option KV)
+  | error (e : Err)
+  deriving Repr, DecidableEq
+
+/-- The backend write call a recognised transaction is turned into, with the arguments backendshim.go
+builds (`uint64(revision)`). -/
+inductive BCall where
+  | create (key val : Bytes) (lease : Int)
+  | delete (key : Bytes) (rev : Nat)
+  | update (key val : Bytes) (rev : Nat) (lease : Int)
+  deriving Repr, DecidableEq
+
+/-- `none`: no backend call is made (create shape with put flags: refused before the call; the
+compactor's transaction; an unsupported transaction). -/
+def backendCall : Shape → Option BCall
+  | .create p => if p.ignoreLease || p.ignoreValue || p.prevKv then none else some (.create p.key p.val p.lease)
+  | .delete rev key _ => some (.delete key (toU64 rev))
+  | .update rev key val lease => some (.update key val (toU64 rev) lease)
+  | .compact => none
+  | .unsupported => none
+
+/-- the proto response of a backend write in terms of the model's `WriteRes`; `old` = the key-value a
+successful call reports (delete: the deleted one; create / update: none) -/
+def ansOfWrite (old : Option KV) : WriteRes → BAns
+  | .ok rev => .resp true rev old
+  | .condFailed hdr kv => .resp false hdr kv
+  | .notFound hdr => .resp false hdr none
+  | .error e => .error e
+
+/-- the call on the sequential backend model -/
+def runCall (c : Cfg) (s : BState) : BCall → BAns × BState
+  | .create key val _ => let (r, s') := doCreate c s key val []; (ansOfWrite none r, s')
+  | .delete key rev => let (r, s') := doDelete c s key rev []; (ansOfWrite (curKv c s key) r, s')
+  | .update key val rev _ => let (r, s') := doUpdate c s key val rev []; (ansOfWrite none r, s')
+
+/-- backendShim.Create after its backend call: `[ResponsePut]` in both outcomes -/
+def shapeCreate : BAns → Except EErr TxnResp
+  | .resp ok hdr _ => .ok { ok := ok, hdr := hdr, resps := [.put hdr], wrote := ok }
+  | .error e => .error (.backend e)
+
+/-- backendShim.Delete after its backend call: `[ResponseRange{kv}]` in every outcome -/
+def shapeDelete : BAns → Except EErr TxnResp
+  | .resp ok hdr kv => .ok { ok := ok, hdr := hdr, resps := [.range hdr kv.toList 0 false], wrote := ok }
+  | .error e => .error (.backend e)
+
+/-- backendShim.Update after its backend call: `[ResponsePut]` / `[ResponseRange{current kv}]` -/
+def shapeUpdate : BAns → Except EErr TxnResp
+  | .resp true hdr _ => .ok { ok := true, hdr := hdr, resps := [.put hdr], wrote := true }
+  | .resp false hdr kv => .ok { ok := false, hdr := hdr, resps := [.range hdr kv.toList 0 false], wrote := false }
+  | .error e => .error (.backend e)
 
 /-- `RPCServer.compact`: a canned "failed" answer, nothing is executed. -/
 def compactResp : TxnResp :=
@@ -262,18 +302,38 @@ def unguardedFlag (r : TxnResp) : TxnResp :=
   | false, [.range _ [] _ _] => { r with ok := true }
   | _, _ => r
 
-/-- `RPCServer.Txn` on the leader. -/
+/-- The response `RPCServer.Txn` builds for a transaction of shape `sh` from the backend's answer `a`
+(`a` is not looked at when `backendCall sh = none`). -/
+def shapeTxn (sh : Shape) (a : BAns) : Except EErr TxnResp :=
+  match sh with
+  | .create p => if p.ignoreLease || p.ignoreValue || p.prevKv then .error .field else shapeCreate a
+  | .delete _ _ true => shapeDelete a
+  | .delete _ _ false =>
+    match shapeDelete a with
+    | .ok r => .ok (unguardedFlag r)
+    | .error e => .error e
+  | .update _ _ _ _ => shapeUpdate a
+  | .compact => .ok compactResp
+  | .unsupported => .error .unsupported
+
+/-- `RPCServer.Txn` on the leader: classify, call the backend (if the shape has a call), shape the answer. -/
 def shimTxn (c : Cfg) (s : BState) (t : TxnReq) : Except EErr TxnResp × BState :=
-  match classify t with
-  | .create p => shimCreate c s p
-  | .delete rev key true => shimDelete c s rev key
-  | .delete rev key false =>
-    match shimDelete c s rev key with
-    | (.ok r, s') => (.ok (unguardedFlag r), s')
-    | (.error e, s') => (.error e, s')
-  | .update rev key val _ => shimUpdate c s rev key val
-  | .compact => (.ok compactResp, s)
-  | .unsupported => (.error .unsupported, s)
+  match backendCall (classify t) with
+  | some call => let (a, s') := runCall c s call; (shapeTxn (classify t) a, s')
+  | none => (shapeTxn (classify t) (.error .other), s)
+
+/-! the three backendshim methods on the model (used by the lemmas; `shimTxn_cases` in KB.Lemmas.Etcd
+shows `shimTxn` is their `if` chain) -/
+
+def shimCreate (c : Cfg) (s : BState) (p : PutReq) : Except EErr TxnResp × BState :=
+  if p.ignoreLease || p.ignoreValue || p.prevKv then (.error .field, s)
+  else let (a, s') := runCall c s (.create p.key p.val p.lease); (shapeCreate a, s')
+
+def shimDelete (c : Cfg) (s : BState) (rev : Int) (key : Bytes) : Except EErr TxnResp × BState :=
+  let (a, s') := runCall c s (.delete key (toU64 rev)); (shapeDelete a, s')
+
+def shimUpdate (c : Cfg) (s : BState) (rev : Int) (key val : Bytes) : Except EErr TxnResp × BState :=
+  let (a, s') := runCall c s (.update key val (toU64 rev) 0); (shapeUpdate a, s')
 
 /-! ### Range -/
 
